@@ -20,7 +20,7 @@ def wrap (a : Annotation) (sel : List (Char × List Mod)) : Annotation :=
     cterm := normList a.cterm
     internal := internalOf sel
     intervals := none
-    charge := normCharge a.charge
+    charge := a.charge
     adducts := normList a.adducts }
 
 /-- the mods a residue of an annotation carries -/
